@@ -147,6 +147,9 @@ async fn get_last_n_blocks(
 }
 
 pub fn panic_message(p: Box<dyn std::any::Any + Send>) -> String {
+    if p.downcast_ref::<crate::panics::HarnessUnwind>().is_some() {
+        return crate::faults::CRASH.to_string();
+    }
     if let Some(s) = p.downcast_ref::<&str>() {
         s.to_string()
     } else if let Some(s) = p.downcast_ref::<String>() {
@@ -162,7 +165,14 @@ impl Tower {
         let r = catch_unwind(AssertUnwindSafe(|| Self::boot_inner(node, dir, cfg)));
         match r {
             Ok(x) => x,
-            Err(p) => Err(BootError::Panic(crate::panics::last_or(panic_message(p)))),
+            Err(p) => {
+                let m = panic_message(p);
+                if m == crate::faults::CRASH {
+                    Err(BootError::Panic(m))
+                } else {
+                    Err(BootError::Panic(crate::panics::last_or(m)))
+                }
+            }
         }
     }
 
@@ -306,7 +316,14 @@ impl Tower {
 
     fn guarded<T>(&self, f: impl FnOnce() -> T) -> Result<T, String> {
         crate::panics::clear();
-        catch_unwind(AssertUnwindSafe(f)).map_err(|p| crate::panics::last_or(panic_message(p)))
+        catch_unwind(AssertUnwindSafe(f)).map_err(|p| {
+            let m = panic_message(p);
+            if m == crate::faults::CRASH {
+                m
+            } else {
+                crate::panics::last_or(m)
+            }
+        })
     }
 
     pub fn poll(&mut self) -> Result<(), String> {
@@ -316,7 +333,14 @@ impl Tower {
             self.rt.block_on(m.poll_best_tip());
         }));
         self.monitor = Some(m);
-        r.map_err(|p| crate::panics::last_or(panic_message(p)))
+        r.map_err(|p| {
+            let m = panic_message(p);
+            if m == crate::faults::CRASH {
+                m
+            } else {
+                crate::panics::last_or(m)
+            }
+        })
     }
 
     pub fn register(&self, user_id: Vec<u8>) -> Result<Result<common_msgs::RegisterResponse, Status>, String> {
